@@ -28,7 +28,7 @@ const HangGuard = 20 * time.Second
 type In struct {
 	Hex  string // the input bytes (empty when Rep is set)
 	Conv int    // 0: bytes.Reader; 1: a full read ending exactly at end of input returns (n, io.EOF)
-	Via  string // "ar": LoadAr + Next driven by the harness; "load": deb.Load
+	Via  string // "ar": LoadAr + Next driven by the harness; "load": deb.Load; "file:<close pattern>": deb.LoadFile (file.go)
 	Desc string `json:",omitempty"` // how the generator derived the bytes (informational only)
 	// Rep, when set, describes a LARGE input compactly: Prefix + Count x Unit + Suffix (hex each).
 	Rep *RepSpec `json:",omitempty"`
@@ -397,6 +397,9 @@ func evalLoad(b []byte, conv int) (fs []finding, class string) {
 }
 
 func eval(b []byte, conv int, via string) ([]finding, string) {
+	if isFileVia(via) {
+		return evalFile(b, strings.TrimPrefix(via, "file:"))
+	}
 	if via == "load" {
 		return evalLoad(b, conv)
 	}
@@ -422,7 +425,7 @@ func check(scen string, in In) []*mc.Violation {
 	if err != nil {
 		return nil
 	}
-	if in.Via != "load" {
+	if in.Via != "load" && !isFileVia(in.Via) {
 		in.Via = "ar"
 	}
 	fs, _ := eval(b, in.Conv, in.Via)
